@@ -182,13 +182,22 @@ package slip
 //@   property C02
 //@ func slip.ReadStream
 //@   property C02
-//@   loop err!=nil: invariant lexer-state: pending(cr) && ismode(cr.mode) && isnext(cr.nextMode)
+//@   loop err!=nil: invariant lexer-state: pending(cr) && ismode(cr.mode) && isnext(cr.nextMode) && cr.more
+// the input ends only when the stream says so with an error (io.EOF): a read
+// that delivers nothing is not the end
+//@   on-call read end-of-input-only-on-error: cr.more || err != nil
 //@ func slip.ReadStreamPush
 //@   property C02
-//@   loop err!=nil: invariant lexer-state: pending(cr) && ismode(cr.mode) && isnext(cr.nextMode)
+//@   loop err!=nil: invariant lexer-state: pending(cr) && ismode(cr.mode) && isnext(cr.nextMode) && cr.more
+// the input ends only when the stream says so with an error (io.EOF): a read
+// that delivers nothing is not the end
+//@   on-call read end-of-input-only-on-error: cr.more || err != nil
 //@ func slip.ReadStreamEach
 //@   property C02
-//@   loop err!=nil: invariant lexer-state: pending(cr) && ismode(cr.mode) && isnext(cr.nextMode)
+//@   loop err!=nil: invariant lexer-state: pending(cr) && ismode(cr.mode) && isnext(cr.nextMode) && cr.more
+// the input ends only when the stream says so with an error (io.EOF): a read
+// that delivers nothing is not the end
+//@   on-call read end-of-input-only-on-error: cr.more || err != nil
 
 // The token, character and number builders see the bytes of their token only
 // as makeToken hands them over.
@@ -209,7 +218,12 @@ package slip
 //@   ensures carry-consumed: len(r.carry) == 0
 //@   confine src to makeToken
 //@ func slip.(*reader).pushInteger
-//@   property C02
+//@   property C02 C03
+// C03: a #b / #o / #x / #nr number that fits 64 bits is a fixnum - the big
+// integer parser is only asked when the machine parser reported an error, and in
+// the same base
+//@   on-call SetString bignum-only-when-it-does-not-fit: err != nil && $arg1 == r.base
+//@   on-call ParseInt machine-parser-first: $arg1 == r.base && $arg2 == 64
 //@   requires window: 0 <= r.tokenStart && r.tokenStart <= r.pos && r.pos <= len(src)
 //@   ensures cursor-kept: r.tokenStart == old(r.tokenStart) && r.pos == old(r.pos)
 //@   ensures flags-kept: r.more == old(r.more) && r.one == old(r.one)
@@ -245,7 +259,7 @@ package slip
 // C04 / C08: calling a lambda never changes its lambda list (names and
 // default forms are shared by every later call).
 //@ func slip.(*Lambda).Call
-//@   property C04 C08
+//@   property C01 C04 C08
 // C04: the body runs only after the second pass over the lambda list has run to
 // its end (that pass binds the default of every &optional / &key parameter the
 // call did not supply, nil for an absent &rest, and the &aux variables).
@@ -266,6 +280,13 @@ package slip
 //@   on-call Let#7 key-default-is-evaluated: is_form(ad.Default) ==> ($n >= 1 && $arg1 == $eres[$n - 1])
 //@   on-call Let#8 aux-value-is-evaluated: is_form(ad.Default) ==> ($n >= 1 && $arg1 == $eres[$n - 1])
 //@   on-store parents#1 caller-scope-first: len(now) >= 2 && now[0] == s && now[len(now) - 1] == lam.Closure
+
+// C04 / C01: a variable that is bound in the scope itself is bound whatever its
+// value is - also when the value is nil: an argument that was supplied as nil is
+// not mistaken for an absent one (which would get the parameter's default).
+//@ func slip.(*Scope).bound
+//@   property C04
+//@   ensures own-binding-decides: (old(s.Vars) != nil && old(has(s.Vars, name))) ==> (result0 == (old(s.Vars[name]) != box(Unbound, unbound)))
 
 // ---------------------------------------------------------------------------
 // C13: package visibility.
